@@ -117,6 +117,9 @@ def check(report: Report, repo: Repo) -> None:
                     env = opt[0]["args"][0].env
                     okb = env is not None and env.lookup("backends")[1] is res.attrs.get("backends")
                     report.add("R2-backend-list", f"{cons}::composite-closes-over-list", okb, f"[{sname}] the composite backend iterates the module's own backend list object (later re-ordering is seen)", "same list" if okb else "other", "result.backends")
+                resets = [i_ for i_, e in enumerate(it.events) if e.kind == "call" and e["callee"] == "torch._dynamo.reset"]
+                opt_at = [i_ for i_, e in enumerate(it.events) if e.kind == "call" and e["callee"] == "torch._dynamo.optimize"]
+                report.add("R5-cache-flags", f"{cons}::new_forward::dynamo-reset", bool(resets) and bool(opt_at) and resets[0] < opt_at[0], f"[{sname}] Dynamo's compile caches are reset before the module is re-traced (otherwise the 9th module of one class exceeds the recompile limit and silently runs un-transformed)", len(resets), ">=1 before optimize", nontrivial=False)
                 applied = [e for e in it.events if e.kind == "callv" and "torch._dynamo.optimize" in fmt(e["callee"])]
                 report.add("R5-cache-flags", f"{cons}::new_forward::module", len(applied) == 1 and applied[0]["args"][0] is res, f"[{sname}] Dynamo wraps the copy", len(applied), 1, nontrivial=False)
                 report.add("R5-cache-flags", f"{cons}::new_forward::flag-cleared", res.attrs.get("rerun_transform") is False, f"[{sname}] rerun_transform is cleared after the wrapper is rebuilt", fmt(res.attrs.get("rerun_transform")), False)
